@@ -63,13 +63,21 @@ type Instance struct {
 	FixedSize  int      `json:"fixedSize,omitempty"`
 	FalseTag   uint32   `json:"falseTag,omitempty"`
 	TrueTag    uint32   `json:"trueTag,omitempty"`
+	// added for the Reg family (C17): annotation names of the kernel type, and (on instance 0 only)
+	// the kernel's annotation table (position = bit of the generated Annotations mask)
+	Annotations    []string `json:"annotations,omitempty"`
+	AllAnnotations []string `json:"allAnnotations,omitempty"`
 }
 
 func main() {
 	var opt pure.OptionsKernel
 	opt.Bind(flag.CommandLine)
 	outPath := flag.String("dumpOut", "", "where to write the JSON dump")
+	// added for the Json family (C05/C06): the Go generator sets OptionsKernel.InstantiateConstants (constant nat
+	// arguments become part of the instance: `tuple int 4` is the fixed array [4]int32, which has its own JSON rules)
+	instConst := flag.Bool("instantiateConstants", false, "resolve instances as the Go generator does (constants instantiated)")
 	flag.Parse()
+	opt.InstantiateConstants = *instConst
 	opt.ErrorWriter = os.Stderr
 	k := pure.NewKernel(&opt)
 	if err := k.AddFilesFromPaths(flag.Args()); err != nil {
@@ -142,6 +150,16 @@ func main() {
 		x := Instance{ID: i, Name: ins.CanonicalName(), TLName: c.TLName().String(), Tag: c.TLTag(),
 			NatParams: append([]string{}, c.NatParams()...), TopLevel: c.IsTopLevel(), HasTL2: c.HasTL2(),
 			OriginTL2: c.OriginTL2(), BoxedOnly: ins.BoxedOnly(), MapKey: ins.GoodForMapKey()}
+		if i == 0 {
+			x.AllAnnotations = append([]string{}, k.AllAnnotations()...)
+		}
+		if kt := ins.KernelType(); kt != nil {
+			for _, a := range k.AllAnnotations() {
+				if kt.HasAnnotation(a) {
+					x.Annotations = append(x.Annotations, a)
+				}
+			}
+		}
 		switch t := ins.(type) {
 		case *pure.TypeInstancePrimitive:
 			x.Kind = "prim"
